@@ -928,6 +928,70 @@ fn stock_modules(ctx: &Ctx) -> u64 {
     n
 }
 
+/// User-facing helpers of the `Executor` trait: what the configured module receives must be the
+/// message the helper's arguments describe - sender, code id, admin, label, salt, message bytes
+/// and funds intact ("handed with sender and payload intact").
+fn helper_cases() -> Vec<(u8, u8, u8)> {
+    let mut v = vec![];
+    for helper in 0..5u8 {
+        for funds in 0..3u8 {
+            for admin in 0..2u8 {
+                if (helper >= 3 && admin > 0) || (helper == 3 && funds > 0) {
+                    continue;
+                }
+                v.push((helper, funds, admin));
+            }
+        }
+    }
+    v
+}
+
+fn run_helper_case(ctx: &Ctx, w: &mut RWorld, hc: (u8, u8, u8)) -> u64 {
+    let (helper, fi, ai) = hc;
+    *w.app.storage_mut() = w.genesis.clone();
+    LOG.with(|l| l.borrow_mut().clear());
+    FAIL.with(|f| *f.borrow_mut() = 0);
+    SCRIPT.with(|s| *s.borrow_mut() = Script { kind: "bank".into(), callee: w.callee.clone(), recipient: w.recipient.clone(), next: w.typed.clone(), ..Script::default() });
+    let user = Addr::unchecked(&w.user);
+    let funds: Vec<cosmwasm_std::Coin> = [vec![], vec![coin(1, "x")], vec![coin(3, "x")]][fi as usize].clone();
+    let admin: Option<String> = if ai == 1 { Some(w.recipient.clone()) } else { None };
+    let name = ["instantiate_contract", "instantiate2_contract", "execute_contract", "migrate_contract", "send_tokens"][helper as usize];
+    let cj = json!({"engine": "route", "helper": name, "helper_code": helper, "funds_code": fi, "admin_code": ai, "funds": format!("{:?}", funds), "admin": admin});
+    let (module, want_payload): (&'static str, String) = match helper {
+        0 => ("wasm", format!("{:?}", WasmMsg::Instantiate { admin: admin.clone(), code_id: w.code_typed, msg: to_json_binary(&Empty {}).unwrap(), funds: funds.clone(), label: "fresh-label".into() })),
+        1 => ("wasm", format!("{:?}", WasmMsg::Instantiate2 { admin: admin.clone(), code_id: w.code_typed, label: "fresh-label".into(), msg: to_json_binary(&Empty {}).unwrap(), funds: funds.clone(), salt: Binary::from(b"salt-17") })),
+        2 => ("wasm", format!("{:?}", WasmMsg::Execute { contract_addr: w.callee.clone(), msg: to_json_binary(&Cmd { script: 6 }).unwrap(), funds: funds.clone() })),
+        3 => ("wasm", format!("{:?}", WasmMsg::Migrate { contract_addr: w.typed.clone(), new_code_id: w.code_typed, msg: to_json_binary(&Cmd { script: 6 }).unwrap() })),
+        _ => ("bank", format!("{:?}", BankMsg::Send { to_address: w.recipient.clone(), amount: funds.clone() })),
+    };
+    let res = catch(|| match helper {
+        0 => w.app.instantiate_contract(w.code_typed, user.clone(), &Empty {}, &funds, "fresh-label", admin.clone()).map(|_| ()),
+        1 => w.app.instantiate2_contract(w.code_typed, user.clone(), &Empty {}, &funds, "fresh-label", admin.clone(), Binary::from(b"salt-17")).map(|_| ()),
+        2 => w.app.execute_contract(user.clone(), Addr::unchecked(&w.callee), &Cmd { script: 6 }, &funds).map(|_| ()),
+        3 => w.app.migrate_contract(user.clone(), Addr::unchecked(&w.typed), &Cmd { script: 6 }, w.code_typed).map(|_| ()),
+        _ => w.app.send_tokens(user.clone(), Addr::unchecked(&w.recipient), &funds).map(|_| ()),
+    });
+    let logv: Vec<Rec> = LOG.with(|l| std::mem::take(&mut *l.borrow_mut()));
+    if let Err(p) = &res {
+        ctx.violation(&format!("c17:panic:helper-{}", name), json!({"case": cj, "panic": p}));
+        return 1;
+    }
+    let first: Vec<&Rec> = logv.iter().filter(|r| r.module == module && r.op == "execute").take(1).collect();
+    let want = Rec { module, op: "execute", sender: w.user.clone(), payload: want_payload };
+    if first.len() != 1 || *first[0] != want {
+        ctx.violation(&format!("c17:helper-message-not-intact:{}", name), json!({"case": cj, "expected_first_record_in_the_configured_module": format!("{:?}", want), "got": first.iter().map(|r| format!("{:?}", r)).collect::<Vec<_>>(), "all_records": logv.iter().map(|r| format!("{:?}", r)).collect::<Vec<_>>()}));
+    }
+    // attached funds travel as one bank message in the sender's name to the contract
+    if module == "wasm" && !funds.is_empty() {
+        let banks: Vec<&Rec> = logv.iter().filter(|r| r.module == "bank" && r.op == "execute").collect();
+        let ok = banks.len() == 1 && banks[0].sender == w.user && banks[0].payload.contains(&format!("{:?}", funds));
+        if !ok {
+            ctx.violation("c17:routing:attached-funds-not-through-the-configured-bank-module", json!({"case": cj, "bank_records": banks.iter().map(|r| format!("{:?}", r)).collect::<Vec<_>>()}));
+        }
+    }
+    2
+}
+
 fn cases(tier: Tier) -> Vec<Case> {
     let mut v = vec![];
     let masks: Vec<u32> = match tier {
@@ -988,12 +1052,19 @@ pub fn run_c17(ctx: &Ctx) -> i32 {
         })
         .sum();
     let stock = stock_modules(ctx);
-    let n = cs.len() + qcases.len() + stock as usize;
+    let hcs = helper_cases();
+    let helper_evals: u64 = {
+        let mut w = world();
+        hcs.iter().map(|h| run_helper_case(ctx, &mut w, *h)).sum()
+    };
+    let n = cs.len() + qcases.len() + stock as usize + hcs.len();
     let coverage = json!({
         "states": n,
-        "transitions": evals + qevals + stock,
+        "transitions": evals + qevals + stock + helper_evals,
         "traces_validated_against_impl": n,
-        "evaluations": evals + qevals + stock,
+        "evaluations": evals + qevals + stock + helper_evals,
+        "executor_helper_cases": hcs.len(),
+        "executor_helpers": "instantiate_contract, instantiate2_contract, execute_contract, migrate_contract, send_tokens x funds {none, 1x, 3x} x admin {none, some}: the configured module's first record is exactly the message the arguments describe, in the caller's name",
         "stock_module_cases": stock,
         "stock_module_combinations": "all 16 of {AcceptingModule | FailingModule} x {IbcAccepting | IbcFailing} x {GovAccepting | GovFailing} x {StargateAccepting | StargateFailing}; message kinds custom, ibc, gov, stargate, any and query kinds custom, ibc, stargate, grpc from top level, a typed and a lifted contract, every reply_on",
         "distinct_nontrivial": n,
@@ -1012,6 +1083,10 @@ pub fn run_c17(ctx: &Ctx) -> i32 {
 pub fn replay_c17(ctx: &Ctx, case: &Value) {
     let c = &case["case"];
     let mut w = world();
+    if c["helper"].is_string() {
+        run_helper_case(ctx, &mut w, (c["helper_code"].as_u64().unwrap_or(0) as u8, c["funds_code"].as_u64().unwrap_or(0) as u8, c["admin_code"].as_u64().unwrap_or(0) as u8));
+        return;
+    }
     if let Some(q) = c["query_kind"].as_str() {
         let q: &'static str = QKINDS.iter().find(|k| **k == q).copied().unwrap_or("bank");
         run_query_case(ctx, &mut w, q, c["origin_code"].as_u64().unwrap_or(0) as u8, c["fail_mask"].as_u64().unwrap_or(0) as u32);
